@@ -516,8 +516,11 @@ func (s *server) ReadRows(req *btpb.ReadRowsRequest, stream btpb.Bigtable_ReadRo
 	}
 
 	defer tbl.read()
+	verifPoint("ReadRows.beforeLock", stream.Context())
 	tbl.mu.RLock()
 	defer tbl.mu.RUnlock()
+	defer verifPoint("ReadRows.done", stream.Context())
+	verifPoint("ReadRows.locked", stream.Context())
 
 	limit := int(req.RowsLimit)
 	count := 0
@@ -527,7 +530,9 @@ func (s *server) ReadRows(req *btpb.ReadRowsRequest, stream btpb.Bigtable_ReadRo
 	sendResponse := func() error {
 		// Reverse the lock while streaming the row out.
 		tbl.mu.RUnlock()
+		defer verifPoint("ReadRows.relocked", stream.Context())
 		defer tbl.mu.RLock()
+		verifPoint("ReadRows.window", stream.Context())
 		return stream.Send(&btpb.ReadRowsResponse{Chunks: cb.chunks})
 	}
 
@@ -977,15 +982,20 @@ func (s *server) MutateRow(ctx context.Context, req *btpb.MutateRowRequest) (*bt
 	}
 
 	defer tbl.write()
+	verifPoint("MutateRow.beforeLock", ctx)
 	tbl.mu.Lock()
 	defer tbl.mu.Unlock()
+	defer verifPoint("MutateRow.done", ctx)
+	verifPoint("MutateRow.locked", ctx)
 	now := s.clock()
 	r := tbl.getOrCreateRow(req.RowKey)
+	verifPoint("MutateRow.afterRead", ctx, req.RowKey)
 
 	if err := applyMutations(tbl, r, req.Mutations, now); err != nil {
 		return nil, err
 	}
 	tbl.updateRow(r)
+	verifPoint("MutateRow.afterWrite", ctx, req.RowKey)
 	return &btpb.MutateRowResponse{}, nil
 }
 
@@ -999,12 +1009,16 @@ func (s *server) MutateRows(req *btpb.MutateRowsRequest, stream btpb.Bigtable_Mu
 	res := &btpb.MutateRowsResponse{Entries: make([]*btpb.MutateRowsResponse_Entry, len(req.Entries))}
 
 	defer tbl.write()
+	verifPoint("MutateRows.beforeLock", stream.Context())
 	tbl.mu.Lock()
 	defer tbl.mu.Unlock()
+	defer verifPoint("MutateRows.done", stream.Context())
+	verifPoint("MutateRows.locked", stream.Context())
 	now := s.clock()
 
 	for i, entry := range req.Entries {
 		r := tbl.getOrCreateRow(entry.RowKey)
+		verifPoint("MutateRows.afterRead", stream.Context(), entry.RowKey)
 
 		code, msg := int32(codes.OK), ""
 		if err := applyMutations(tbl, r, entry.Mutations, now); err != nil {
@@ -1012,6 +1026,7 @@ func (s *server) MutateRows(req *btpb.MutateRowsRequest, stream btpb.Bigtable_Mu
 			msg = err.Error()
 		} else {
 			tbl.updateRow(r)
+			verifPoint("MutateRows.afterWrite", stream.Context(), entry.RowKey)
 		}
 		res.Entries[i] = &btpb.MutateRowsResponse_Entry{
 			Index:  int64(i),
@@ -1031,10 +1046,14 @@ func (s *server) CheckAndMutateRow(ctx context.Context, req *btpb.CheckAndMutate
 	res := &btpb.CheckAndMutateRowResponse{}
 
 	defer tbl.write()
+	verifPoint("CheckAndMutateRow.beforeLock", ctx)
 	tbl.mu.Lock()
 	defer tbl.mu.Unlock()
+	defer verifPoint("CheckAndMutateRow.done", ctx)
+	verifPoint("CheckAndMutateRow.locked", ctx)
 	now := s.clock()
 	r := tbl.getOrCreateRow(req.RowKey)
+	verifPoint("CheckAndMutateRow.afterRead", ctx, req.RowKey)
 
 	// Figure out which mutation to apply.
 	whichMut := false
@@ -1062,6 +1081,7 @@ func (s *server) CheckAndMutateRow(ctx context.Context, req *btpb.CheckAndMutate
 		return nil, err
 	}
 	tbl.updateRow(r)
+	verifPoint("CheckAndMutateRow.afterWrite", ctx, req.RowKey)
 	return res, nil
 }
 
@@ -1221,10 +1241,14 @@ func (s *server) ReadModifyWriteRow(ctx context.Context, req *btpb.ReadModifyWri
 	}
 
 	defer tbl.write()
+	verifPoint("ReadModifyWriteRow.beforeLock", ctx)
 	tbl.mu.Lock()
 	defer tbl.mu.Unlock()
+	defer verifPoint("ReadModifyWriteRow.done", ctx)
+	verifPoint("ReadModifyWriteRow.locked", ctx)
 	now := s.clock()
 	r := tbl.getOrCreateRow(req.RowKey)
+	verifPoint("ReadModifyWriteRow.afterRead", ctx, req.RowKey)
 	resultRow := &btpb.Row{Key: req.RowKey} // copy of updated cells
 	cols := tbl.cols()
 
@@ -1277,6 +1301,7 @@ func (s *server) ReadModifyWriteRow(ctx context.Context, req *btpb.ReadModifyWri
 	}
 
 	tbl.updateRow(r)
+	verifPoint("ReadModifyWriteRow.afterWrite", ctx, req.RowKey)
 	resultRow, _ = scrubRow(resultRow, cols)
 	return &btpb.ReadModifyWriteRowResponse{Row: resultRow}, nil
 }
@@ -1431,8 +1456,11 @@ func (t *table) gc(now bigtable.Timestamp, done <-chan struct{}, force bool) {
 
 	// TODO(scottb): if the table is still idle after GC is done, send Rows a CloseHint()
 
+	verifPoint("gc.beforeLock")
 	t.mu.Lock()
 	defer t.mu.Unlock()
+	defer verifPoint("gc.done")
+	verifPoint("gc.locked")
 
 	// Gather GC rules we'll apply.
 	rules := make(map[string]*btapb.GcRule) // keyed by "fam"
@@ -1457,6 +1485,7 @@ func (t *table) gc(now bigtable.Timestamp, done <-chan struct{}, force bool) {
 		}
 	}()
 	t.rows.Ascend(func(r *btpb.Row) bool {
+		verifPoint("gc.row", r.Key)
 		changed := false
 		for _, fam := range r.Families {
 			gcRule := rules[fam.Name]
@@ -1482,7 +1511,9 @@ func (t *table) gc(now bigtable.Timestamp, done <-chan struct{}, force bool) {
 
 		// Reverse lock; check if we should exit
 		t.mu.Unlock()
+		defer verifPoint("gc.relocked")
 		defer t.mu.Lock()
+		verifPoint("gc.window")
 		select {
 		case <-done:
 			return false // server has been closed
